@@ -80,6 +80,46 @@ def check(run, P):
     _persist(run, P)
     _prec(run, P)
     _genfunc(run, P)
+    # lowering and plan execution are part of both back ends' contract
+    run.rule("C01.lower", "the lowering keeps order, loops and guards (shared with "
+             "C05.topo / C05.wrap / C05.loops / C05.cond / C05.walker)", minimum=15)
+    run.rule("C01.plan", "the interpreter's plan execution (shared with C04.post / "
+             "C04.front / C04.mark / C04.dispatch / C04.reset / C04.sinks / "
+             "C04.guardeval)", minimum=15)
+    run.rule("C01.wrap", "line wrapping keeps tokens (shared with C20.lexer)", minimum=1)
+    from . import c04, c05, c20
+    for src_rule, fn in (("C05.topo", None), ("C05.wrap", None)):
+        run.rule_docs[src_rule] = ""
+        run.minimum[src_rule] = 0
+    n0 = len(run.obs)
+    c05._topo_wrap(run, P)
+    for o in run.obs[n0:]:
+        o.rule = "C01.lower"
+    for src_rule in ("C05.topo", "C05.wrap"):
+        del run.rule_docs[src_rule]
+        del run.minimum[src_rule]
+    _alias(run, "C05.loops", "C01.lower", lambda: c05._loops(run, P))
+    _alias(run, "C05.cond", "C01.lower", lambda: c05._cond(run, P))
+    _alias(run, "C05.walker", "C01.lower", lambda: c05._walker(run, P))
+    C = P.cls(c04.EC)
+    _alias(run, "C04.post", "C01.plan", lambda: c04._post(run, P, C))
+    _alias(run, "C04.front", "C01.plan", lambda: c04._front(run, P, C))
+    for src_rule in ("C04.mark", "C04.dispatch"):
+        run.rule_docs[src_rule] = ""
+        run.minimum[src_rule] = 0
+    n0 = len(run.obs)
+    c04._mark(run, P, C)
+    for o in run.obs[n0:]:
+        o.rule = "C01.plan"
+    for src_rule in ("C04.mark", "C04.dispatch"):
+        del run.rule_docs[src_rule]
+        del run.minimum[src_rule]
+    _alias(run, "C04.reset", "C01.plan", lambda: c04._reset(run, P, C))
+    _alias(run, "C04.sinks", "C01.plan", lambda: c04._sinks(run, P))
+    _alias(run, "C04.guardeval", "C01.plan", lambda: c04._guardeval(run, P))
+    _alias(run, "C20.lexer", "C01.wrap",
+           lambda: c20._lexer(run, P, P.func("dagrt.codegen.utils.wrap_line_base")))
+
     from . import c02
     f = P.func("dagrt.language.CodeBuilder._add_statement")
     _alias(run, "C02.cond", "C01.builder", lambda: c02._condition(run, P, f))
